@@ -48,6 +48,12 @@ def run(F, R):
     qctor = [b['id'] for b in queue_entry_points(F, M) if b.get('sig', '').find('-> core::result::Result<%s<' % M.queue_adt) >= 0]
     ctors = h1_constructors(F, R, M, qctor)
     queue_ctor_flags(F, R, M)
+    # H6: the indirect form is used only on a queue whose indirect mode was negotiated: capacity / form table of add (C03.E3)
+    from .C03 import e3_capacity
+    _r8 = C05.classify_api(C05.queue_api(F, M))
+    for _k, _v in _r8.items():
+        if _v == 'add':
+            guard(R, 'H6', 'form', lambda _k=_k: e3_capacity(F, R, M, _k, rule='H6', rule1='H6'))
     h2_supported(F, R, ctors)
     h2_constants(F, R)
     h4_gated(F, R, M)
